@@ -45,8 +45,17 @@
 (*                    GatewayTimeout, never DeadlineExceeded).  REST fault *)
 (*                    scripts are drawn from RestExact.                    *)
 (*                                                                         *)
-(* The transport (grpc | rest) and whether the method's http rule has a    *)
-(* body are INPUT dimensions only: the property is the same for all of     *)
+(*   AsyncStreamNoRetry  the asyncio client hands a client-streaming / bidi *)
+(*                    call object back before any status exists (grpc.aio; *)
+(*                    api-core's async error wrapper only awaits the       *)
+(*                    connection), so the retry wrapper has returned when  *)
+(*                    the fault arrives: over grpc_asyncio a streaming     *)
+(*                    call is NEVER retried - a divergence from "retried   *)
+(*                    exactly on the entry's codes" that is modelled, named *)
+(*                    in Inv_Surface and reported, not asserted.           *)
+(*                                                                         *)
+(* The transport (grpc | grpc_asyncio | rest), the method's arity and      *)
+(* whether its http rule has a body are INPUT dimensions only: the property is the same for all of     *)
 (* them - every attempt carries RpcTimeoutAt(effective timeout, elapsed)   *)
 (* as the `timeout` of the channel call (gRPC) or of the HTTP session call *)
 (* (REST), None when there is no effective timeout.                        *)
@@ -57,7 +66,7 @@ CONSTANTS Scope,       \* which configs Init draws from: "table" | "sel_small" |
           TableLo, NTable,   \* "table": configs ConfigTab[TableLo..NTable]
           MaxLen,      \* longest server fault script
           RunCalls,    \* FALSE: resolution only (the behaviour ends once every method is loaded)
-          Transports,  \* subset of {"grpc", "rest"} the calls are made over
+          Transports,  \* subset of {"grpc", "grpc_asyncio", "rest"} the calls are made over
           FreeJitter,  \* TRUE: every sleep picks its own jitter; FALSE: one jitter per call (case emission)
           Mutant       \* "none" for the real design; the others are self-test mutants TLC must reject
 
@@ -98,7 +107,13 @@ RT == "acme.rt.v1.Rt"
 AD == "acme.rt.v1.RtAdmin"
 N(s, m) == [svc |-> s, meth |-> m]
 Selectors == <<N(RT, "Get"), N(RT, "BatchGet"), N(RT, "GetMore"), N(RT, "Put"), N(RT, "Drop"), N(RT, "Scan"),
-               N(RT, "Poll"), N(RT, "Touch"), N(AD, "Get"), N(AD, "Put")>>
+               N(RT, "Poll"), N(RT, "Touch"), N(RT, "Upload"), N(RT, "Chat"), N(AD, "Get"), N(AD, "Put")>>
+\* Upload is client-streaming (stream -> unary), Chat bidirectional; every other method is unary.  A streaming call
+\* is retried like a unary one: the retry wrapper issues the call again (with the same, by then consumed, request
+\* iterator), so "retried" means another call on the channel after a sleep.  No http rule: not available over REST.
+ClientStreamMeths == {N(RT, "Upload")}
+BidiMeths == {N(RT, "Chat")}
+StreamMeths == ClientStreamMeths \cup BidiMeths
 SuffixPairs == {<<"Get", "BatchGet">>}          \* <<a, b>>: b ends with a (used by a mutant only)
 \* http rules of the carrier: these are bound with a request body (post, body "*"), the others without (get, delete)
 BodyMeths == {N(RT, "BatchGet"), N(RT, "Put"), N(RT, "Touch"), N(AD, "Put")}
@@ -121,9 +136,9 @@ E(ns, t, p) == [names |-> ns, timeout |-> t, policy |-> p]
 ConfigTab == <<
   \* 1: several entries, an entry naming two methods, timeout with/without retryPolicy, retryPolicy without
   \*    timeout, a service-level name, api-core defaults, a later duplicate entry that must lose
-  << E({N(RT, "Get"), N(RT, "Scan")}, "8s", Pol("0.25s", "1s", "2", {"UNAVAILABLE", "DEADLINE_EXCEEDED"}, 5)),
+  << E({N(RT, "Get"), N(RT, "Scan"), N(RT, "Upload")}, "8s", Pol("0.25s", "1s", "2", {"UNAVAILABLE", "DEADLINE_EXCEEDED"}, 5)),
      E({N(RT, "Put")}, "4s", NoPol),
-     E({N(RT, "Drop")}, "", Pol("0.5s", "4s", "1.5", {"ABORTED"}, 0)),
+     E({N(RT, "Drop"), N(RT, "Chat")}, "", Pol("0.5s", "4s", "1.5", {"ABORTED"}, 0)),
      E({N(RT, "")}, "2s", Pol("0.125s", "0.25s", "2", {"NOT_FOUND"}, 0)),
      E({N(AD, "Get")}, "1s", Pol("", "", "", {"INTERNAL"}, 3)),
      E({N(RT, "Get"), N(RT, "Poll")}, "1s", Pol("1s", "2s", "3", {"NOT_FOUND"}, 0)) >>,
@@ -133,7 +148,8 @@ ConfigTab == <<
      E({N(AD, "Get")}, "2s", Pol("0.5s", "1s", "1.5", {"RESOURCE_EXHAUSTED", "ABORTED"}, 0)),
      E({N(RT, "Put"), N(AD, "Put")}, "0.75s", Pol("0.25s", "0.5s", "2", {"INTERNAL", "UNKNOWN"}, 2)),
      E({N(RT, "Drop")}, "3s", Pol("2s", "0.5s", "2", {"CANCELLED"}, 0)),
-     E({N(RT, "Scan")}, "250000000n", NoPol),
+     E({N(RT, "Scan"), N(RT, "Chat")}, "250000000n", NoPol),
+     E({N(RT, "Upload")}, "2s", Pol("0.5s", "1s", "2", {"UNAVAILABLE", "INTERNAL"}, 0)),
      E({N(RT, "Poll")}, "2000000000n", Pol("250000000n", "1500000000n", "1.25", {"DATA_LOSS"}, 0)) >>,
   \* 3 and 4: every canonical status code as the single retryable code of some method
   << E({N(RT, "Get")}, "4s", Pol("0.25s", "1s", "2", {"CANCELLED"}, 0)),
@@ -163,7 +179,7 @@ ConfigTab == <<
      E({N(AD, "Put")}, "", NoPol) >>,
   \* 6: pairs of codes, multipliers 1.25 / 3 / 1, maximum below initial, entry order against declaration order
   << E({N(AD, "Put"), N(AD, "Get")}, "3s", Pol("0.25s", "2s", "3", {"UNAUTHENTICATED", "CANCELLED"}, 0)),
-     E({N(RT, "Touch")}, "2.5s", Pol("0.5s", "0.25s", "2", {"OUT_OF_RANGE", "UNIMPLEMENTED"}, 0)),
+     E({N(RT, "Touch"), N(RT, "Upload")}, "2.5s", Pol("0.5s", "0.25s", "2", {"OUT_OF_RANGE", "UNIMPLEMENTED"}, 0)),
      E({N(RT, "Poll")}, "4s", Pol("1s", "8s", "1.25", {"PERMISSION_DENIED", "ALREADY_EXISTS"}, 0)),
      E({N(RT, "BatchGet")}, "2s", Pol("0.5s", "2s", "1", {"INVALID_ARGUMENT", "FAILED_PRECONDITION"}, 0)),
      E({N(RT, "Get")}, "30s", Pol("1s", "4s", "2", {"UNKNOWN", "DATA_LOSS"}, 0)),
@@ -289,7 +305,11 @@ RpcTimeoutAt(t, elapsed) ==
 AttemptTimeout ==
   IF Mutant = "rest_no_body_no_timeout" /\ transport = "rest" /\ target \notin BodyMeths THEN SessionDefault
   ELSE RpcTimeoutAt(eff.timeout, now)
-Retryable(c) == IF Mutant = "retry_all" THEN eff.retry.on ELSE eff.retry.on /\ c \in eff.retry.codes
+AsyncStreamNoRetry == transport = "grpc_asyncio" /\ target \in StreamMeths
+Retryable(c) == CASE AsyncStreamNoRetry -> FALSE
+                  [] Mutant = "stream_no_default_retry" /\ target \in ClientStreamMeths /\ ovr.rmode = "default" -> FALSE
+                  [] Mutant = "retry_all" -> eff.retry.on
+                  [] OTHER -> eff.retry.on /\ c \in eff.retry.codes
 Expired(d) == /\ eff.retry.deadline # No
               /\ IF Mutant = "check_after_sleep" THEN now > eff.retry.deadline ELSE now + d > eff.retry.deadline
 
@@ -391,7 +411,8 @@ InvokeAny ==
        \E o \in Overrides(pal), s \in Scripts(pal) :
          \E j \in (IF ~FreeJitter /\ FirstRetryable(Effective(res[k], o), s) THEN Jitter ELSE {<<1, 1>>}) :
            \E tr \in Transports :
-             /\ tr = "rest" => Range(s) \subseteq RestExact
+             /\ tr = "rest" => Range(s) \subseteq RestExact /\ Selectors[k] \notin StreamMeths
+             /\ (tr = "grpc_asyncio" /\ Selectors[k] \in StreamMeths) => j = <<1, 1>>
              /\ Invoke(Selectors[k], tr, o, s, j)
 
 Next == \/ LoadMethod \/ InvokeAny \/ Attempt \/ ServerOk \/ ServerFault \/ Return \/ Surface
@@ -436,7 +457,7 @@ Inv_OnlyRetryable ==
 Inv_Surface ==
   (Calling /\ outcome \notin {"pending", "ok", "RetryError"}) =>
       /\ outcome = faults[attempt] /\ Len(faults) = attempt
-      /\ DefaultRetry => ~(HasPolicy /\ outcome \in Entry(cfg, target).policy.codes)
+      /\ (DefaultRetry /\ ~AsyncStreamNoRetry) => ~(HasPolicy /\ outcome \in Entry(cfg, target).policy.codes)
 \* waits follow initialBackoff, maxBackoff, backoffMultiplier
 Inv_Bound ==
   Calling => \A i \in 1..Len(sleeps) :
@@ -488,7 +509,8 @@ Live == <>Terminal
 EmitResolve == (stage = "loaded" /\ ~RunCalls) =>
                  PrintT(<<"CASE", ToJson([kind |-> "resolve", cid |-> cid, cfg |-> cfg, resolved |-> res])>>)
 ASSUME PrintT(<<"SELECTORS", ToJson(Selectors)>>)       \* the method order `resolved` refers to
-ASSUME PrintT(<<"HTTPRULES", ToJson([body |-> BodyMeths, delete |-> DeleteMeths])>>)
+ASSUME PrintT(<<"HTTPRULES", ToJson([body |-> BodyMeths, delete |-> DeleteMeths, cstream |-> ClientStreamMeths,
+                                     bidi |-> BidiMeths])>>)
 EmitRun == (stage = "done") =>
              PrintT(<<"CASE", ToJson([kind |-> "run", cid |-> cid, sel |-> target, transport |-> transport, ovr |-> ovr, script |-> script0,
                                       jit |-> jit, pal |-> Pal(cfg, res[SelIdx(target)]),
